@@ -140,7 +140,12 @@ def b_len(I, args, kwargs, node):
     if isinstance(v, tuple):
         return len(v)
     if isinstance(v, SList):
+        parts = [x for x in v.items if isinstance(x, SeqPart)]
+        if parts:
+            return mk_int(z3.Sum([z3.IntVal(len(v.items) - len(parts))] + [p.n for p in parts]))
         return len(v.items)
+    if isinstance(v, SymColl):
+        return mk_int(v.part.n)
     if isinstance(v, SDict):
         return len(v.d)
     if isinstance(v, SSet):
@@ -272,6 +277,10 @@ def b_tuple(I, args, kwargs, node):
 def b_list(I, args, kwargs, node):
     if not args:
         return SList([])
+    if isinstance(args[0], SymColl):
+        return SList([args[0].part])
+    if isinstance(args[0], SList):
+        return SList(args[0].items)
     return SList(I.iterate(args[0], node))
 
 
@@ -579,6 +588,18 @@ def str_method(I, s, name, args, kwargs, node):
     conc = isinstance(s, str) and all(is_concrete(a) for a in args)
     if name == 'join':
         items = I.iterate(args[0], node)
+        if len(items) == 1 and isinstance(items[0], Repeat):
+            # sep.join(elem for _ in <n opaque elements>): an uninterpreted function of (sep, elem, n)
+            rp = items[0]
+            if not is_strlike(rp.value):
+                raise PyRaise(TypeError)
+            f = z3.Function('join_rep', z3.StringSort(), z3.StringSort(), z3.IntSort(), z3.StringSort())
+            note = "sep.join(e for _ in xs) over a collection of symbolic length n is the uninterpreted join_rep(sep, e, n)"
+            if note not in I.st.assumed:
+                I.st.assumed.append(note)
+            return SStr([Sq(f(str_z3(s), str_z3(rp.value), rp.part.n))])
+        if any(isinstance(it, Repeat) for it in items):
+            raise Unsupported("join over a mix of concrete items and a symbolic segment")
         parts = []
         for i, it in enumerate(items):
             if not is_strlike(it):
@@ -666,6 +687,12 @@ def list_method(I, L, name, args, kwargs, node):
         L.items.append(args[0])
         return None
     if name == 'extend':
+        if isinstance(args[0], SymColl):
+            L.items.append(args[0].part)
+            return None
+        if isinstance(args[0], SList):
+            L.items.extend(args[0].items)
+            return None
         L.items.extend(I.iterate(args[0], node))
         return None
     if name == 'insert':
